@@ -194,40 +194,79 @@ def SameAnswerSeries (a b : SeriesReq) : Prop :=
   a.tenant = b.tenant ∧ a.matchers = b.matchers ∧ a.partialResp = b.partialResp ∧
   sortS a.replicas = sortS b.replicas
 
-def C43_series_full : Prop :=
+/-- C43 for series requests at full strength, for the key as found (`false`) or as repaired (`true`) -/
+def C43_series_full (full : Bool) : Prop :=
   ∀ (a b : SeriesReq) (k : Str), tenantAccepted a.tenant = true → tenantAccepted b.tenant = true →
-    seriesKey a = some k → seriesKey b = some k → SameAnswerSeries a b
+    seriesKeyWith full a = some k → seriesKeyWith full b = some k → SameAnswerSeries a b
 
+/-- The series key of the repository as it is now separates tenant, matcher text (any content),
+    interval, partial response and the replica label set, for colon-free tenants and
+    separator-free replica labels. -/
 theorem C43_series_partial (a b : SeriesReq) (k : Str) (ha : ':' ∉ a.tenant) (hb : ':' ∉ b.tenant)
+    (hra : ∀ x ∈ a.replicas, LabelOK x) (hrb : ∀ x ∈ b.replicas, LabelOK x)
     (hka : seriesKey a = some k) (hkb : seriesKey b = some k) :
-    a.tenant = b.tenant ∧ a.matchers = b.matchers ∧ a.splitMs = b.splitMs ∧
-    a.start.tdiv a.splitMs = b.start.tdiv b.splitMs := by
-  unfold seriesKey at hka hkb
+    SameAnswerSeries a b ∧ a.splitMs = b.splitMs ∧ a.start.tdiv a.splitMs = b.start.tdiv b.splitMs := by
+  have hsa : ∀ x ∈ sortS a.replicas, LabelOK x := fun x hx => hra x (mem_sortS hx)
+  have hsb : ∀ x ∈ sortS b.replicas, LabelOK x := fun x hx => hrb x (mem_sortS hx)
+  unfold seriesKey seriesKeyWith at hka hkb
   split at hka
   · simp at hka
   split at hkb
   · simp at hkb
-  simp only [Option.some.injEq] at hka hkb
+  simp only [if_true, Option.some.injEq] at hka hkb
   have h := hka.trans hkb.symm
+  obtain ⟨h, e7⟩ := col_inj (joinComma_no_colon hsa) (joinComma_no_colon hsb) h
+  obtain ⟨h, e6⟩ := col_inj showBool_no_colon showBool_no_colon h
   obtain ⟨h, e5⟩ := col_inj showInt_no_colon showInt_no_colon h
   obtain ⟨h, e4⟩ := col_inj showInt_no_colon showInt_no_colon h
-  simp only [col, List.cons_append, List.nil_append, List.cons.injEq, true_and, List.append_assoc] at h
+  simp only [col, List.cons_append, List.nil_append, List.cons.injEq, true_and] at h
   obtain ⟨e1, e2⟩ := sep_first ha hb h
-  exact ⟨e1, e2, showInt_inj e4, showInt_inj e5⟩
+  exact ⟨⟨e1, e2, showBool_inj e6, joinComma_inj hsa hsb e7⟩, showInt_inj e4, showInt_inj e5⟩
 
-/-- F43b: two series requests that differ only in the replica labels (or only in the
-    partial-response flag) share a key. -/
-theorem C43_series_full_false : ¬ C43_series_full := by
+/-- F43b (repaired in the repository, still provable of the key as found): two series requests
+    that differ only in the replica labels, or only in the partial-response flag, shared a key. -/
+theorem C43_series_unrepaired_false : ¬ C43_series_full false := by
   intro h
   have := h ⟨s "t", s "[[up]]", 0, 3600000, false, [s "replica"]⟩ ⟨s "t", s "[[up]]", 0, 3600000, false, []⟩
     (s "fe:t:[[up]]:3600000:0") (by decide) (by decide) (by decide) (by decide)
   exact absurd this.2.2.2 (by decide)
 
-example : seriesKey ⟨s "t", s "[[up]]", 0, 3600000, false, []⟩ = seriesKey ⟨s "t", s "[[up]]", 0, 3600000, true, []⟩ := by decide
+example : seriesKeyWith false ⟨s "t", s "[[up]]", 0, 3600000, false, []⟩ = seriesKeyWith false ⟨s "t", s "[[up]]", 0, 3600000, true, []⟩ := by decide
+example : seriesKey ⟨s "t", s "[[up]]", 0, 3600000, false, [s "b", s "a"]⟩ = some (s "fe:t:[[up]]:3600000:0:false:a,b") := by decide
 
-/-- a labels key of one tenant can equal a series key of another (tenant id ending in ':') -/
-theorem C43_cross_type_collision :
-    labelsKey ⟨s "t", s "", s "[[up]]", 0, 3600000, false⟩ = seriesKey ⟨s "t:", s "[[up]]", 0, 3600000, false, []⟩ := by
+/-- the repaired key still does not escape its separators: replica labels ["a,b"] and ["a","b"] -/
+theorem C43_series_full_false : ¬ C43_series_full true := by
+  intro h
+  have := h ⟨s "t", s "[[up]]", 0, 3600000, false, [s "a,b"]⟩ ⟨s "t", s "[[up]]", 0, 3600000, false, [s "a", s "b"]⟩
+    (s "fe:t:[[up]]:3600000:0:false:a,b") (by decide) (by decide) (by decide) (by decide)
+  exact absurd this.2.2.2 (by decide)
+
+/-- since the repair a labels key and a series key cannot coincide (the series key ends in
+    `…:<bool>:<replica labels>`, the labels key in `…:<number>:<number>`) when the replica labels
+    are separator-free; before the repair the label-names key of tenant "t" equalled the series
+    key of tenant "t:" -/
+theorem C43_cross_type_separated (a : LabelsReq) (b : SeriesReq) (k : Str) (hrb : ∀ x ∈ b.replicas, LabelOK x)
+    (hka : labelsKey a = some k) (hkb : seriesKey b = some k) : False := by
+  have hsb : ∀ x ∈ sortS b.replicas, LabelOK x := fun x hx => hrb x (mem_sortS hx)
+  unfold labelsKey at hka
+  unfold seriesKey seriesKeyWith at hkb
+  split at hka
+  · simp at hka
+  split at hkb
+  · simp at hkb
+  simp only [if_true, Option.some.injEq] at hka hkb
+  have h := hka.trans hkb.symm
+  obtain ⟨h, _⟩ := col_inj showInt_no_colon (joinComma_no_colon hsb) h
+  obtain ⟨_, e⟩ := col_inj showInt_no_colon showBool_no_colon h
+  -- a printed integer is never "true" / "false"
+  have hc : ∀ c ∈ showInt a.splitMs, c.isDigit ∨ c = '-' := fun c hc => showInt_chars hc
+  rw [e] at hc
+  cases hp : b.partialResp with
+  | true => rw [hp] at hc; have := hc 't' (by simp [showBool]); revert this; decide
+  | false => rw [hp] at hc; have := hc 'f' (by simp [showBool]); revert this; decide
+
+theorem C43_cross_type_collision_unrepaired :
+    labelsKey ⟨s "t", s "", s "[[up]]", 0, 3600000, false⟩ = seriesKeyWith false ⟨s "t:", s "[[up]]", 0, 3600000, false, []⟩ := by
   decide
 
 /-- a zero split interval (request that did not pass the split middleware) divides by zero -/
@@ -256,8 +295,9 @@ theorem C43_fact_meta_formats :
     Thanos.Facts.labelsKeyFormat =
       ["return fmt.Sprintf(\"fe:%s:%s:%s:%d:%d\", userID, tr.Label, tr.Matchers, splitInterval, currentInterval)"] ∧
     Thanos.Facts.seriesKeyFormat =
-      ["return fmt.Sprintf(\"fe:%s:%s:%d:%d\", userID, tr.Matchers, splitInterval, currentInterval)"] := by
-  decide
+      ["replicaLabels := append([]string(nil), tr.ReplicaLabels...)", "sort.Strings(replicaLabels)",
+       "return fmt.Sprintf(\"fe:%s:%s:%d:%d:%t:%s\", userID, tr.Matchers, splitInterval, currentInterval, tr.PartialResponse, strings.Join(replicaLabels, \",\"))"] :=
+  ⟨rfl, rfl⟩
 
 theorem C43_fact_should_cache :
     Thanos.Facts.shouldCacheBody =
